@@ -186,7 +186,7 @@ class Judge:
             sentinel_side = "else" if sentinel_side == "body" else "body"
         return lacking == sentinel_side
 
-    def _atom_empty(self, t: ast.AST, site, targets) -> str | None:
+    def _atom_empty(self, t: ast.AST, site, targets, _depth: int = 0) -> str | None:
         """'false' if t being falsy means targets are empty; 'true' if t being truthy means targets are empty"""
         if isinstance(t, ast.UnaryOp) and isinstance(t.op, ast.Not):
             r = self._atom_empty(t.operand, site, targets)
@@ -205,8 +205,21 @@ class Judge:
             return None
         if isinstance(t, ast.Call) and isinstance(t.func, ast.Name) and t.func.id in ("bool", "len", "list") and t.args:
             return self._atom_empty(t.args[0], site, targets)
+        if isinstance(t, ast.BoolOp) and isinstance(t.op, ast.Or):
+            # `a or b or c` is falsy only when every operand is: falsy means the targets among them are empty
+            return "false" if any(self._atom_empty(v, site, targets) == "false" for v in t.values) else None
         if isinstance(t, (ast.Name, ast.Attribute, ast.Subscript)):
-            return "false" if _mentions(self.labels_of(t, site), targets) else None
+            if _mentions(self.labels_of(t, site), targets):
+                return "false"
+            if isinstance(t, ast.Name) and _depth < 3:
+                # a boolean local with one definition stands for its defining expression (`has_trivia = bool(a or b)`)
+                fobj = self.flow.prog.funcs.get(site[0]) if site else None
+                if fobj is not None:
+                    ds = [d for d in ast.walk(fobj.node) if isinstance(d, ast.Assign) and len(d.targets) == 1
+                          and isinstance(d.targets[0], ast.Name) and d.targets[0].id == t.id]
+                    if len(ds) == 1:
+                        return self._atom_empty(ds[0].value, site, targets, _depth + 1)
+            return None
         return None
 
     def _side(self, test: ast.AST, site, targets) -> str | None:
